@@ -243,3 +243,84 @@ func VerifH09d() {
 	conn.out = nil
 	vAssert("define-nothing-for-no-columns", Columns(nil).Define(ctx, w, nil) == nil && len(conn.out) == 0)
 }
+
+// ---------------------------------------------------------------------------
+// H09m — a result set whose values change Go type from row to row (C09/C05):
+// the same text column carries a string in one row, a []byte, a pgtype.Text or
+// a NULL in the next. Each row must arrive as its own DataRow with the bytes of
+// that row's value: nothing learnt from an earlier row (an encoder, a buffer)
+// may be applied to a later one.
+// ---------------------------------------------------------------------------
+func vMixedValue() (src any, null bool, payload []byte) {
+	switch vChoose(5) {
+	case 0:
+		return nil, true, nil
+	case 1:
+		b := nondetBytes(vChoose(vParam("VLEN", 1) + 1))
+		return string(b), false, b
+	case 2:
+		b := nondetBytes(vChoose(vParam("VLEN", 1) + 1))
+		return b, false, b
+	case 3:
+		b := nondetBytes(vChoose(vParam("VLEN", 1) + 1))
+		return pgtype.Text{String: string(b), Valid: true}, false, b
+	default:
+		return pgtype.Text{Valid: false}, true, nil
+	}
+}
+
+func VerifH09m() {
+	srv, _ := NewServer(nil)
+	ctx := vCtx(srv)
+	nc := 1 + vChoose(vParam("COLS", 2))
+	columns := make(Columns, nc)
+	for i := range columns {
+		columns[i] = Column{Name: "c", Oid: oid.T_text}
+	}
+	formats := vFormats(nc)
+	conn := vNewConn(nil)
+	w := buffer.NewWriter(slog.Default(), conn)
+	rd := buffer.NewReader(slog.Default(), conn, 64)
+	dw := NewDataWriter(ctx, columns, formats, rd, w)
+	rows := 1 + vChoose(vParam("ROWS", 2))
+	var want [][]byte
+	var first []any
+	for r := 0; r < rows; r++ {
+		srcs := make([]any, nc)
+		body := vU16(nc)
+		for i := 0; i < nc; i++ {
+			var null bool
+			var payload []byte
+			srcs[i], null, payload = vMixedValue()
+			if null {
+				body = append(body, 0xFF, 0xFF, 0xFF, 0xFF)
+			} else {
+				body = append(body, vU32(uint32(len(payload)))...)
+				body = append(body, payload...)
+			}
+		}
+		if r == 0 {
+			first = srcs
+		} else {
+			for i := 0; i < nc; i++ {
+				_, s0 := first[i].(string)
+				_, s1 := srcs[i].(string)
+				if first[i] != nil && srcs[i] != nil && s0 != s1 {
+					vReach("type-changes-between-rows")
+				}
+				if first[i] == nil && srcs[i] != nil {
+					vReach("null-then-value")
+				}
+			}
+		}
+		vAssert("mixed-row-ok", dw.Row(srcs) == nil)
+		want = append(want, body)
+	}
+	vAssert("mixed-written-count", dw.Written() == uint64(rows))
+	msgs, ok := vFrames(conn.out)
+	vAssert("mixed-rows-framed", ok && len(msgs) == rows)
+	for r := 0; r < rows; r++ {
+		vAssert("mixed-row-is-datarow", msgs[r].typ == 'D')
+		vAssert("mixed-row-body", vEqBytes(msgs[r].body, want[r]))
+	}
+}
